@@ -27,7 +27,7 @@ RULE = ("three grammar families: (1) random grammars with the left-recursion-avo
 ASSUMPTIONS = ["a parse exceeding 300000 loop steps is dropped as inconclusive, never judged",
                "address space of a shard is limited to 3 GiB so that a runaway parse cannot hurt the host"]
 TIERS = {
-    "quick": {"shards": 4, "cases": 1500, "timeout": 600},
+    "quick": {"shards": 4, "cases": 1500, "timeout": 300},
     "thorough": {"shards": 16, "cases": 12000, "timeout": 3000},
 }
 FLOORS = {"quick": {"distinct_nontrivial": 2000, "left_recursive_rejected": 1500, "accepted_grammars": 2000,
@@ -46,6 +46,8 @@ LEVEL_NOTE = ("The stack bound is proved on paper (two stack entries with the sa
               "imply a left-recursive cycle); termination proper is only observed (all parses ended), "
               "grammars bounded to <=4 non-terminals / <=7 alternatives, inputs <=14 tokens.")
 TECHNIQUE = "runtime monitoring: cycle-search oracle + sys.monitoring stack-bound invariant on every push"
+
+CTOR_LINE_BOUND = 500_000  # lines of the constructor's cycle search; observed maximum is reported
 
 ORDERS = [p for k in (1, 2, 3) for p in itertools.permutations(range(k + 1))]
 
@@ -86,8 +88,13 @@ def run_case(ctx, mon, cfg_id, terms, prods, start, kind, inputs_spec=None, rng=
     for smart in (True, False):
         ctx.evaluated()
         detail = {"smart_factorization": smart, "cycle": cycle}
+        mon.start_ctor(CTOR_LINE_BOUND)
         try:
             parsers[smart] = cfg.make_parser(prods, start, smart_factorization=smart)
+        except llmon.CtorStepBoundExceeded:
+            ctx.violation("left-recursion-check-exceeds-step-bound",
+                          dict(detail, lines=mon.ctor_lines, bound=CTOR_LINE_BOUND), base_case)
+            continue
         except llparser.GrammarIsRecursive:
             if cycle is None:
                 ctx.violation("non-recursive-grammar-rejected", detail, base_case)
@@ -176,6 +183,8 @@ def run_shard(ctx):
                 ctx.sample({"family": kind, "grammar": gram.fmt_grammar(prods), "start": start,
                             "left_recursive_cycle": gram.left_recursion_cycle(prods)})
     finally:
+        mon.start_ctor(None)
+        ctx.maxi("max_lines_of_cycle_search_seen", mon.max_ctor_lines)
         mon.close()
     ctx.maxi("max_hidden_cycle_orders_in_one_shard", len(orders))
     ctx.counters["hidden_cycle_orders_seen"] = len(orders) if ctx.shard == 0 else 0
